@@ -780,6 +780,12 @@ def compute_kdf_context(
     l1: int,
     l2: int,
 ) -> bytes:
+    # The indexes are signed 32-bit values in the KDF context, -1 is used for
+    # the levels that are not present.
+    for idx in (l0, l1, l2):
+        if idx < -1 or idx > 0x7FFFFFFF:
+            raise ValueError(f"Invalid group key index {idx}, must be between -1 and {0x7FFFFFFF}")
+
     return b"".join(
         [
             key_guid.bytes_le,
